@@ -681,6 +681,10 @@ def rule_gcskel(ctx, rep, rid):
                 "traversals take user nodes for bucket nodes (and skip them) or the reverse", [cx[0].inst.where()])
     elif gnew[0] == "bin" and gnew[1] in ("and", "or"):
         rep.bad(rid, "gc.unlink-keeps-BUCKET", "gc unlink installs %s whatever flag the replaced word carried" % ir.expr_str(gnew), [cx[0].inst.where()])
+    elif [z for z in ir.subexprs(gnew) if z[0] == "bin" and z[1] == "and" and z[2][0] == "load" and z[2][1].endswith(NEXT) and z[3][0] == "c" and z[3][1] != -8 and (z[3][1] & B.BUCKET)]:
+        z = [z for z in ir.subexprs(gnew) if z[0] == "bin" and z[1] == "and" and z[2][0] == "load" and z[2][1].endswith(NEXT) and z[3][0] == "c" and z[3][1] != -8][0]
+        rep.bad(rid, "gc.unlink-keeps-BUCKET", "gc unlink builds the new link from the removed node's next word masked with %#x, which keeps its BUCKET bit: when the removed node is a bucket node (a shrink) "
+                "the preceding user node's next word is marked BUCKET - lookups, traversals and add_unique skip that node from then on" % (z[3][1] & 0xffffffffffffffff), [cx[0].inst.where()])
     else:
         raise Broken("_cds_lfht_gc_bucket: new value of the unlink cmpxchg has an unrecognised shape: %s" % ir.expr_str(gnew))
     # predecessor: phi over {bucket (restart), clear(iter) (advance)}
